@@ -4,11 +4,56 @@ import json, os, sys
 HERE = os.path.dirname(os.path.dirname(os.path.abspath(__file__)))
 
 # id -> (technique, level text, level note, design ref)
+COMMON_NOTE = " Trusted base: the harness (mc/src), its clock seam (own clock_gettime), TZ=UTC, the build profile (opt-level 2, overflow checks and debug assertions on). Inputs outside the stated alphabets and bounds are not covered."
 CHECKS = {
+ "C01": ("bounded-exhaustive enumeration of atom sequences, rule-pattern instantiations, multi-line texts, configurations and stress shapes on the real code; oracle: returns normally (panic hook + watchdog), one slot per line, line independence",
+         "Every sequence of lexical atoms up to the stated length over an alphabet with one representative per tokenizer/rule branch (incl. malformed atoms, over-long literals, multi-byte characters, unknown language tags), every configured rule pattern instantiated with typed boundary values (<= k deviations from the default), a date x duration grid, all multi-line texts over a 12-kind line pool with every LF/CRLF mix, configurations reachable through the setters, and stress shapes are executed on the real calculator; each must return within 30 s without panicking, with status true and exactly one slot per line of an independently written splitter, and slots of variable-free lines must equal the line evaluated alone. Totality bugs are shape bugs with tiny witnesses, so a complete small scope is the right strength; nothing is sampled.",
+         "Non-termination is detected by a 30 s per-case horizon (reported as a violation, ends the run)." + COMMON_NOTE,
+         "DESIGN.md section 6 C01"),
  "C02": ("bounded-exhaustive enumeration of expression trees/renderings on the real code vs. an f64 reference evaluator",
          "Every expression tree up to the stated leaf bound (all shapes x operators x literals x sign prefixes x 6 renderings, also as assignment right-hand sides, juxtapositions and suffixed literals) is evaluated by the real calculator and compared with an independent IEEE-754 evaluator; nothing is sampled. Shape bugs of a recursive-descent parser have small witnesses, so a complete small scope is the right strength.",
-         "Reference evaluator and renderer are hand-written (mc/src/model/arith.rs); literals outside the alphabet and trees beyond the leaf bound are not covered; date-like quotient chains a/b/c are excluded as the statement says.",
+         "Reference evaluator and renderer are hand-written (mc/src/model/arith.rs); date-like quotient chains a/b/c are excluded as the statement says." + COMMON_NOTE,
          "DESIGN.md section 6 C02"),
+ "C05": ("exhaustive grid enumeration of percentage phrases on the real code vs. the textbook formulas",
+         "All combinations of the 10 phrase forms, both percent spellings, plain/money operand spellings (codes and symbols), operand held in a variable, and boundary-rich X/A/B/p grids (zero, negative, fractional, large) are evaluated and compared (kind, currency, amount within 1e-9) with the formulas of the statement.",
+         "Grids are finite sets of doubles, not all doubles." + COMMON_NOTE,
+         "DESIGN.md section 6 C05"),
+ "C06": ("exhaustive enumeration of literal spellings, all ordered currency pairs, arithmetic pairs and all rate-update histories up to depth d on the real code vs. a rate-table model",
+         "Every literal spelling of every rated currency/alias/symbol, all 32x32 ordered conversion pairs, all arithmetic pairs, and every sequence of update_currency calls up to the stated depth (each on a fresh calculator, whole probe matrix re-evaluated after every call) are compared with amount*rate(B)/rate(A) over a model table that the harness maintains itself.",
+         "Rates, currency records and aliases are read from config.json (they are the specification); code/alias before the amount, n*M, M1*M2 and currencies without a rate are unspecified." + COMMON_NOTE,
+         "DESIGN.md section 6 C06"),
+ "C07": ("exhaustive enumeration of (value grid x digits x flags x separators x kind) on the real code vs. an exact decimal-arithmetic acceptance predicate",
+         "Values are injected exactly; for every configuration in the grid the printed string is parsed and checked with exact decimal arithmetic: shape (grouping in threes, separator placement, digit count), |printed - value| <= half a unit of the last digit, sign, zero-fraction removal iff all printed digits are zero; the value grid is built per digit count from every rounding/carry/grouping boundary +-1 ulp.",
+         "Which neighbour is printed on an exact binary tie and the sign of a negative value that prints as zero are unspecified; with rounding off only shape/half-unit-or-round-trip/sign are demanded." + COMMON_NOTE,
+         "DESIGN.md section 6 C07"),
+ "C09": ("exhaustive enumeration of date spellings, impossible dates, base-date x offset grids, date pairs and clock instants on the real code vs. an own proleptic-Gregorian calendar model",
+         "Every day of the stated years in every spelling / month-name synonym / letter case / language is read and compared; every non-calendar (d, m) must be rejected; base dates x day/week/month/year offsets x +/- are compared with calendar arithmetic (unspecified where the target day does not exist); all ordered date pairs for 'A to B'; the day words under every clock day of the stated years. The calendar model is self-checked against chrono for every day of years 1..9999 at start-up.",
+         "Two defects pinned by the repository's own tests (execute_21..23, execute_26) are listed as known findings with a defect model; any other deviation is reported." + COMMON_NOTE,
+         "DESIGN.md section 6 C09"),
+ "C10": ("exhaustive enumeration of counts x unit spellings, part lists, sums/differences, magnitudes and 'as' targets on the real code vs. a hand-written duration model",
+         "Seconds value and exact printed decomposition are predicted (unit lengths and output words hand-written from the statement) for N in the stated range x every configured unit spelling of every language, all lists of 2..3 parts and ordered long lists, D1 +- D2, every magnitude in 0..top and +-1 s around every unit multiple, and 'D as U' flooring.",
+         "Fractional and negative counts and 'as months|years' are unspecified." + COMMON_NOTE,
+         "DESIGN.md section 6 C10"),
+ "C11": ("exhaustive enumeration of time literals, all ordered zone pairs, GMT forms, default zones and durations on the real code vs. offset arithmetic modulo 24 h",
+         "All hours x minute/second grids and am/pm forms under every default zone, 'T Z' for every usable zone name and GMT form, 'T Z1 to Z2' for all ordered pairs of usable zone names, T +- D, T1 to T2, and set_timezone/get_time_offset for every name and malformed names are compared with wall - offset(Z1) + offset(Z2) mod 24 h, label, offset and printed HH:MM:SS ZONE.",
+         "Zone offsets are read from config.json (the configured table is the specification); zone names that are also currency codes / keywords / unit names are left out as the statement says; 12:xx am/pm is left out." + COMMON_NOTE,
+         "DESIGN.md section 6 C11"),
+ "C12": ("exhaustive enumeration of all same-kind unit pairs, all cross-kind pairs, round trips, triples and arithmetic pairs under several separator configurations on the real code vs. a hand-written factor table",
+         "All 365 ordered same-kind pairs x amounts x separator configurations, every configured spelling, all 724 cross-kind pairs (must not convert), A->B->A and A->B->C through variables, and Q1 op Q2 / Q op n are compared (amount within 1e-9, unit identity exact) with SI/imperial/IEC factors written by hand in the harness, so wrong data in config.json is a finding.",
+         "Unit spellings are read from config.json." + COMMON_NOTE,
+         "DESIGN.md section 6 C12"),
+ "C13": ("exhaustive enumeration of integers x source base x target base on the real code with a print/read-back round-trip oracle",
+         "Every n in 0..top and 2^k-1, 2^k, 2^k+1 (k <= 62) in base 16/8/2 (digit and prefix case) must denote n; 'N [to] hex|octal|binary|decimal' from all four source bases must keep n, print prefix+digits and read back as n; fractional N converts as round(N); based literals in + - * /.",
+         "Negative numbers and literals beyond i64 are outside the statement (C01 covers 'does not panic')." + COMMON_NOTE,
+         "DESIGN.md section 6 C13"),
+ "C14": ("exhaustive enumeration of boundary timestamps x default/explicit zones and dates on the real code vs. the calendar model, incl. the inverse through a variable",
+         "'N to date' / 'N to Z' / 'N Z' for boundary-rich timestamps (0, +-1, +-86399/86400, 2^31-1, 2^31, 2^32, month starts around 1970 and 2038, leap days, 10^k, first/last second of years 1 and 9999, both signs) under four default zones: instant, zone, printed fields compared; '<date> as unix' and '<time> as unix' compared with the day-number model; 'x = N to date; x as unix' must give N digit for digit.",
+         "Which instant 'D at T' denotes is not part of the statement: '<date-time> as unix' is compared with the instant of the observed date-time value." + COMMON_NOTE,
+         "DESIGN.md section 6 C14"),
+ "C17": ("the atom-sequence enumeration of C01 re-run with a structural oracle on ExecuteLine.ui_tokens, plus position-tagged lines",
+         "For every atom sequence within the bounds (in particular multi-byte atoms before, inside and after tokens) the UI tokens must satisfy 0 <= start < end <= number of characters, be ordered by start and never overlap; for position-tagged arithmetic lines embedded in multi-byte words and followed by a comment each literal, operator and comment must be reported with its own kind covering exactly its characters.",
+         "Which kind a keyword, unit or variable gets is not checked." + COMMON_NOTE,
+         "DESIGN.md section 6 C17"),
 }
 NOT_YET = "check not built yet in this round (work in progress, see DESIGN.md section 11)"
 
